@@ -49,11 +49,11 @@ theorem op_fee_conservation (tx : Tx) (s : Slots) (pre : St) (exec : St → St) 
     (hq : FrameQuiet tx exec)
     (hsup : pre.bal tx.caller + tx.mint.getD 0 + pre.bal tx.coinbase + pre.bal L1_FEE_RECIPIENT
               + pre.bal BASE_FEE_RECIPIENT + pre.bal OPERATOR_FEE_RECIPIENT < W) :
-    ∃ env info l1 cL cU kind used refunded st',
+    ∃ env l1 cL cU kind used refunded st',
       tx.enveloped = some env ∧
       l1 = (if zeroCostEnvelope env then 0 else l1CostFresh (tryFetch s tx.spec) env tx.spec) ∧
-      operatorFeeCharge info tx.gasLimit tx.spec = some cL ∧
-      operatorFeeCharge info used tx.spec = some cU ∧
+      operatorFeeCharge (tryFetch s tx.spec) tx.gasLimit tx.spec = some cL ∧
+      operatorFeeCharge (tryFetch s tx.spec) used tx.spec = some cU ∧
       transactWith tx s pre exec fr = .done kind used refunded st' ∧
       used = usedGas (finalGas tx fr) ∧
       st'.bal tx.coinbase = pre.bal tx.coinbase + (effectiveGasPrice tx - tx.basefee) * used ∧
@@ -68,9 +68,16 @@ theorem op_fee_conservation (tx : Tx) (s : Slots) (pre : St) (exec : St → St) 
   have hbf := basefee_le_of_validateEnv tx hdep hve
   obtain ⟨cU, kind, used, refunded, st', hcU, hrun, hused, h1, h2, h3, h4, h5⟩ :=
     conservation_core tx pre info env l1 cL exec fr hdep hlon hv hbf hdf hl hr hd hq hsup
-  refine ⟨env, info, l1, cL, cU, kind, used, refunded, st', hv.env_eq, ?_, hv.charge_eq, ?_, ?_, hused, h1, h2, h3, h4, h5⟩
-  · rw [hl1]; exact calculateTxL1Cost_fresh _ _ _ (tryFetch_cache s tx.spec)
-  · rw [hused]; exact hcU
+  have hop : ∀ g, operatorFeeCharge (tryFetch s tx.spec) g tx.spec = operatorFeeCharge info g tx.spec := by
+    intro g
+    have := calculateTxL1Cost_op (tryFetch s tx.spec) env tx.spec g
+    rw [hl1] at this
+    exact this.symm
+  refine ⟨env, l1, cL, cU, kind, used, refunded, st', hv.env_eq, ?_, ?_, ?_, ?_, hused, h1, h2, h3, h4, h5⟩
+  · have h6 := calculateTxL1Cost_fresh (tryFetch s tx.spec) env tx.spec (tryFetch_cache s tx.spec)
+    rw [hl1] at h6; exact h6
+  · rw [hop]; exact hv.charge_eq
+  · rw [hop, hused]; exact hcU
   · unfold transactWith
     simp only [hve, hvg, hvs, hoi]
     exact hrun
@@ -252,7 +259,9 @@ theorem l1_cost_uses_enveloped_tx (tx : Tx) (s : Slots) (pre : St) (oi : Option 
         (if zeroCostEnvelope env then 0 else l1CostFresh (tryFetch s tx.spec) env tx.spec, info) := by
   obtain ⟨info, env, l1, cL, hoi, hv, hl1⟩ := validated_of_ok tx s pre oi hdep hW hvs
   refine ⟨info, env, hoi, hv.env_eq, ?_⟩
-  rw [hv.l1_eq, hl1, calculateTxL1Cost_fresh _ _ _ (tryFetch_cache s tx.spec)]
+  have h6 := calculateTxL1Cost_fresh (tryFetch s tx.spec) env tx.spec (tryFetch_cache s tx.spec)
+  rw [hl1] at h6
+  rw [hv.l1_eq]; simp only at h6; rw [h6]
 
 /-- what `clear` protects against: a value whose cache is already filled answers with the cached number for
 every envelope (reachable only by writing `context.evm.inner.l1_block_info` by hand) -/
